@@ -119,6 +119,9 @@ func HIncludeSplit() {
 		}
 	}
 	vSameDigest(vDigest(cA), vDigest(cB), "c09-include-changes-catalog")
+	if vParam("closure", 0) == 1 {
+		vCheckClosure(cB)
+	}
 	vReach("same-catalog")
 	vObserve("same", a, b)
 }
